@@ -454,6 +454,9 @@ def _skel(n, leaves, strip=None):
   return ''
 
 
+_POSITIVE = {ast.IsNot: ast.Is, ast.NotEq: ast.Eq, ast.NotIn: ast.In}
+
+
 def _simple_statements(fn):
   for n in _own_nodes(fn):
     if isinstance(n, (ast.Assign, ast.AugAssign, ast.AnnAssign, ast.Return, ast.Expr)) and not (isinstance(n, ast.Expr) and isinstance(n.value, ast.Constant)):
@@ -464,6 +467,8 @@ def _simple_statements(fn):
       t = n.test
       while isinstance(t, ast.UnaryOp) and isinstance(t.op, ast.Not):
         t = t.operand  # the polarity of a test goes with the arrangement of its branches, which is not compared here
+      if isinstance(t, ast.Compare) and len(t.ops) == 1 and type(t.ops[0]) in _POSITIVE:
+        t = ast.Compare(left=t.left, ops=[_POSITIVE[type(t.ops[0])]()], comparators=t.comparators)
       yield ast.Expr(value=t, lineno=n.lineno, col_offset=0)
 
 
